@@ -32,6 +32,18 @@ Count(seq, x)    == Cardinality({j \in DOMAIN seq : seq[j] = x})
 OccIndex(seq, j) == Cardinality({i \in 1..j : seq[i] = seq[j]})         \* seq[j] is the OccIndex-th mention of its value
 NthOcc(seq, x, k) == CHOOSE i \in DOMAIN seq : seq[i] = x /\ OccIndex(seq, i) = k
 
+RevSeq(s) == [i \in 1..Len(s) |-> s[Len(s) + 1 - i]]
+\* Presentation orders of a base model that are NOT part of its meaning except through the numbering of atom
+\* positions: "swap" writes the compounds of every reaction side in the opposite order (so a merge A + B -> C is
+\* declared as B + A -> C: positions are counted along B first), "rev" declares variables and reactions in the
+\* opposite order, "swaprev" does both.  t: a record with cpds and rxns (and whatever else).
+Reorder(t, ord) ==
+    LET sw == ord \in {"swap", "swaprev"}
+        rv == ord \in {"rev", "swaprev"}
+        rx == [j \in DOMAIN t.rxns |->
+                 IF sw THEN [t.rxns[j] EXCEPT !.subs = RevSeq(@), !.prods = RevSeq(@)] ELSE t.rxns[j]]
+    IN [t EXCEPT !.cpds = IF rv THEN RevSeq(@) ELSE @, !.rxns = IF rv THEN RevSeq(rx) ELSE rx]
+
 RECURSIVE Pow2(_)
 Pow2(n) == IF n = 0 THEN 1 ELSE 2 * Pow2(n - 1)
 
